@@ -75,6 +75,14 @@ def cases(rng, tier):
                 else:
                     a[pn] = {"str": "zzz", "int": 99, "bool": True, "listStr": ["zzz"], "spSep": ["zzz"]}[k]
             out.append({"t": "gen", "cls": qn, "assign": a})
+        # typed slots of opaque kinds whose declared type is a plain JSON type (dict / [dict]): oracle only
+        for pn, sp in cls.c_param.items():
+            if pn == "*" or KIND.get(extract_msg.triple(sp), "other") != "other":
+                continue
+            vt = sp[0][0] if isinstance(sp[0], list) else sp[0]
+            if vt is dict:
+                for wrong in ([[1, 2], 7, 2.5, True, "plain text", {"a": 1}] if tier != "quick" else rng.sample([[1, 2], 7, 2.5, True, {"a": 1}], 3)):
+                    out.append({"t": "slot", "cls": qn, "param": pn, "kind": "other", "v": wrong})
         # typed slots
         for pn, (k, r) in spec.items():
             if k == "other":
@@ -157,6 +165,8 @@ def model_lines(c, obs):
         vals = [c10.enc_val(c["assign"][k]) for k in keys]
         return ["\t".join(["msg", "verify", enc_list(names), enc_list(kinds), enc_list(reqs), enc_list(allowed), enc_list(keys)] + vals)]
     if c["t"] == "slot":
+        if c["kind"] == "other":
+            return []
         v = c["v"]
         if isinstance(v, dict) or v is None or (isinstance(v, list) and any(not isinstance(x, str) for x in v)):
             w = "o:1"      # opaque to the model: dict / null / list of non-strings
@@ -170,6 +180,8 @@ def compare(c, obs, outs):
     if c["t"] == "gen":
         return [] if outs[0] == obs["r"] else [f"generic verify: model={outs[0]} impl={obs['r']} {obs.get('e')}"]
     if c["t"] == "slot":
+        if c["kind"] == "other":
+            return []
         v = c["v"]
         if v is None or isinstance(v, dict) or (isinstance(v, list) and any(not isinstance(x, str) for x in v)):
             return []     # opaque inputs: oracle only
@@ -193,15 +205,13 @@ def oracle(c, obs):
         if obs["outside"]:
             v.append({"cls": "verify-accepts-value-outside-set", "class": c["cls"].split(".")[-1]})
     if c["t"] == "slot" and obs["r"] == "ok" and not obs["typed"]:
-        v.append({"cls": "wrong-type-stored", "class": c["cls"].split(".")[-1], "param": c["param"], "given": type(c["v"]).__name__})
+        v.append({"cls": "wrong-type-stored", "class": c["cls"].split(".")[-1], "param": c["param"], "given": type(c["v"]).__name__,
+                  "triple": "/".join(extract_msg.triple(classes()[c["cls"]].c_param[c["param"]]))})
     return v
 
 
 def known_key(c, v, known):
-    for f in known:
-        if all(v.get(k) == val for k, val in f["match"].items()):
-            return f["key"]
-    return None
+    return common.known_key(c, v, known)
 
 
 def classify(c, obs):
